@@ -99,6 +99,19 @@ def run_case(prop, case, keymaps):
             impl_keygen(decoy, tuple(ignore), tuple(range(len(pn) + 3)), {'e': 0})
         except Exception:
             pass
+    # a sibling made from the SAME code object with other default values (what a factory, a loop of lambdas
+    # or an assignment to __defaults__ produces) is keyed first: defaults belong to the function, not to its code
+    try:
+        import types
+        if func.__defaults__ or func.__kwdefaults__:
+            sib = types.FunctionType(func.__code__, func.__globals__, 'f',
+                                     tuple(('sibling', i) for i, _ in enumerate(func.__defaults__ or ())), func.__closure__)
+            if func.__kwdefaults__:
+                sib.__kwdefaults__ = {n: ('sibling', n) for n in func.__kwdefaults__}
+            nreq = len([1 for _, d in sig['params'] if d is inspect.Parameter.empty])
+            impl_keygen(sib, tuple(ignore), tuple(range(nreq)), {n: 0 for n, d in sig['kwonly'] if d is inspect.Parameter.empty})
+    except Exception:
+        pass
     stats = {'calls': 0, 'pairs_same': 0, 'pairs_diff': 0, 'kw_perm_pairs': 0, 'default_pairs': 0}
     lines = []
     expect = []
